@@ -334,15 +334,15 @@ def run(ctx):
 def stage_a(ctx, procs):
     B = tlc.BUILD
     mn, ml = ctx.pick((3, 2), (4, 3))
-    safe = c11.walk_cfg(os.path.join(B, 'LvsTree_walk_c13_%s.cfg' % ctx.tier), mn, ml,
+    safe = c11.walk_cfg(K.scratch('LvsTree_walk_c13_%s.cfg' % ctx.tier), mn, ml,
                         invariants=['StepsBounded', 'NoStall', 'StackShape'], properties=['Terminates'])
-    cor = c11.walk_cfg(os.path.join(B, 'LvsTree_walk_c13_cor.cfg'), ctx.pick(2, 3), 2, corrupt='parent', count=False,
+    cor = c11.walk_cfg(K.scratch('LvsTree_walk_c13_cor.cfg'), ctx.pick(2, 3), 2, corrupt='parent', count=False,
                        properties=['TerminatesIfSane'])
-    w1 = c11.walk_cfg(os.path.join(B, 'LvsTree_walk_c13_w1.cfg'), 2, 1, corrupt='parent', count=False,
+    w1 = c11.walk_cfg(K.scratch('LvsTree_walk_c13_w1.cfg'), 2, 1, corrupt='parent', count=False,
                       properties=['Terminates'])
-    w2 = c11.walk_cfg(os.path.join(B, 'LvsTree_walk_c13_w2.cfg'), 2, 1, corrupt='parent', count=False,
+    w2 = c11.walk_cfg(K.scratch('LvsTree_walk_c13_w2.cfg'), 2, 1, corrupt='parent', count=False,
                       properties=['W_RootChildrenWaived'])
-    w3 = c11.walk_cfg(os.path.join(B, 'LvsTree_walk_c13_w3.cfg'), 2, 1, corrupt='parent', count=False,
+    w3 = c11.walk_cfg(K.scratch('LvsTree_walk_c13_w3.cfg'), 2, 1, corrupt='parent', count=False,
                       properties=['W_SaneIsEnough'])
     res = K.par([lambda: K.run_tlc('LvsTree', safe, coverage=True, workers=ctx.pick(4, 16)),
                  lambda: K.run_tlc('LvsTree', cor, workers=ctx.pick(2, 8)),
